@@ -193,6 +193,23 @@ func valueFocusShare(i, n int) []*Scenario {
 	return out
 }
 
+// callParens: call expression -> its opening and closing parenthesis
+func callParens(b *hclsyntax.Body, out *List) {
+	for _, n := range sortedKeys(b.Attributes) {
+		seen := map[hcl.Range]bool{}
+		_ = hclsyntax.VisitAll(b.Attributes[n].Expr, func(nd hclsyntax.Node) hcl.Diagnostics {
+			if x, ok := nd.(*hclsyntax.FunctionCallExpr); ok && !seen[x.Range()] {
+				seen[x.Range()] = true
+				*out = append(*out, L(rangeS(x.Range()), rangeS(x.OpenParenRange), rangeS(x.CloseParenRange)))
+			}
+			return nil
+		})
+	}
+	for _, k := range b.Blocks {
+		callParens(k.Body, out)
+	}
+}
+
 func emptyExprRanges(b *hclsyntax.Body, out *List) {
 	for _, n := range sortedKeys(b.Attributes) {
 		_ = hclsyntax.VisitAll(b.Attributes[n].Expr, func(nd hclsyntax.Node) hcl.Diagnostics {
@@ -240,7 +257,8 @@ func wfcCheck(b *hclsyntax.Body, fails *[]string) int {
 					// an unterminated call at the end of the file: the parser's own range is malformed (open finding of C02,
 					// parser-supplied-range-malformed); outside the theorem's hypothesis, counted
 					malformedParserRanges++
-				} else if x.NameRange.Start.Byte < r.Start.Byte || x.NameRange.End.Byte > r.End.Byte {
+				} else if x.NameRange.Start.Byte < r.Start.Byte || x.NameRange.End.Byte > r.End.Byte || x.NameRange.End.Byte < x.NameRange.Start.Byte ||
+					x.CloseParenRange.End.Byte > x.CloseParenRange.Start.Byte+1 {
 					*fails = append(*fails, fmt.Sprintf("call %v with its name at %v", r, x.NameRange))
 				}
 			case *hclsyntax.ObjectConsExpr:
@@ -285,6 +303,8 @@ func valueCandsScenario(run *Run, sc *Scenario, offsets []int, max uint, prefill
 	hoverTables(body, &parens, &opens, &typeok)
 	empties := List{}
 	emptyExprRanges(body, &empties)
+	cparens := List{}
+	callParens(body, &cparens)
 	var wfFails []string
 	malformedParserRanges = 0
 	run.Res.Hypotheses["value_completion_tree_nodes_checked"] += wfcCheck(body, &wfFails)
@@ -338,7 +358,7 @@ func valueCandsScenario(run *Run, sc *Scenario, offsets []int, max uint, prefill
 		if len(pairs) == 0 {
 			continue
 		}
-		run.Case("valuecands", []S{Bool(prefill), Int(int(max)), Str(string(sc.Src)), toks, dec, bodyS_, schS, exprs, opens, empties, vals, fsigsS(sc.Main.Ctx.Functions), parens, pairs}, T("allok"))
+		run.Case("valuecands", []S{Bool(prefill), Int(int(max)), Str(string(sc.Src)), toks, dec, bodyS_, schS, exprs, opens, empties, vals, fsigsS(sc.Main.Ctx.Functions), parens, cparens, pairs}, T("allok"))
 		run.Count("valuecands_files")
 		run.Res.Distribution["valuecands_positions"] += len(pairs)
 	}
